@@ -195,11 +195,18 @@ class Engine:
 
     # ---------------------------------------------------------------- one job
     def run_job(self, job):
+        prep = self.prepare(job)
+        return self.compute(prep)
+
+    def prepare(self, job):
+        """Phase 1 of a job (public call set_depending_on_option, as a driver would make it): option
+        dispatch + the job's model-time timers. Returns what phase 2 needs. The constants are
+        snapshotted: they are 'the inputs' the supply series must be a function of."""
         m = world.mods()
         r = Result(job)
-        self.cur = r
         self.log.add("JOB_START", spec=core.digest(job), iso3=job["iso3"])
         options = copy.deepcopy(job["options"])
+        prep = {"r": r, "args": None}
         try:
             with world.quiet():
                 if job["iso3"] == "WOR":
@@ -218,9 +225,7 @@ class Engine:
                         r.timers_applied[k] = int(v)
                 r.inputs = copy.deepcopy(cfp)
                 r.time_inputs = {k: _arr(v) for k, v in tcfp.items()}
-                out = m.par.Parameters().compute_parameters_first_round(cfp, tcfp, loader)
-            self._extract(r, out)
-            r.status = "ok"
+                prep["args"] = (cfp, tcfp, loader)
         except SystemExit as e:
             r.status = "raised:SystemExit"
             r.error_msg = "SystemExit(%r)" % (e.code,)
@@ -228,8 +233,32 @@ class Engine:
             r.status = "raised:" + type(e).__name__
             r.error = traceback.format_exc(limit=5)
             r.error_msg = (str(e) or type(e).__name__)[:120]
-        finally:
-            self.cur = None
+        return prep
+
+    def compute(self, prep):
+        """Phase 2: Parameters().compute_parameters_first_round on what phase 1 returned."""
+        m = world.mods()
+        r = prep["r"]
+        if prep["args"] is not None:
+            cfp, tcfp, loader = prep["args"]
+            # between the two phases other scenarios may have been prepared: the constants this
+            # scenario was configured with must still be the ones it is computed from
+            r.inputs_changed_before_use = _first_difference(r.inputs, cfp)
+            self.cur = r
+            try:
+                with world.quiet():
+                    out = m.par.Parameters().compute_parameters_first_round(cfp, tcfp, loader)
+                self._extract(r, out)
+                r.status = "ok"
+            except SystemExit as e:
+                r.status = "raised:SystemExit"
+                r.error_msg = "SystemExit(%r)" % (e.code,)
+            except BaseException as e:  # noqa
+                r.status = "raised:" + type(e).__name__
+                r.error = traceback.format_exc(limit=5)
+                r.error_msg = (str(e) or type(e).__name__)[:120]
+            finally:
+                self.cur = None
         r.digest = core.digest({k: v.tolist() for k, v in sorted(r.series.items())}) if r.status == "ok" else None
         self.log.add("JOB_END", status=r.status, digest=r.digest, timers=r.timers_applied)
         return r
@@ -530,6 +559,23 @@ def components():
     }
 
 
+def _first_difference(a, b, path=""):
+    """First key path at which two constants dictionaries differ (None if equal)."""
+    if isinstance(a, dict) and isinstance(b, dict):
+        for k in sorted(set(a) | set(b), key=str):
+            if k not in a or k not in b:
+                return path + "/" + str(k)
+            d = _first_difference(a[k], b[k], path + "/" + str(k))
+            if d:
+                return d
+        return None
+    try:
+        same = bool(np.all(np.asarray(a) == np.asarray(b)))
+    except Exception:
+        same = a is b
+    return None if same else (path or "/")
+
+
 def run_history(spec, evaluate):
     """Shared child-side driver: run every job of the history, then let `evaluate(results,
     spec, V, probes)` judge it. Returns the result dict the runner expects."""
@@ -542,8 +588,15 @@ def run_history(spec, evaluate):
     aborts = 0
     try:
         with Engine(log) as eng:
-            for job in spec["jobs"]:
-                r = eng.run_job(job)
+            if spec.get("interleave"):
+                # schedule exploration: every scenario of the history is prepared (option dispatch)
+                # before any of them is computed - the two public phases of several jobs interleaved
+                preps = [eng.prepare(job) for job in spec["jobs"]]
+                done = [eng.compute(p) for p in preps]
+                probes["histories_interleaved"] = 1
+            else:
+                done = [eng.run_job(job) for job in spec["jobs"]]
+            for r in done:
                 results.append(r)
                 st = r.status.split(":")[0]
                 statuses[st] = statuses.get(st, 0) + 1
@@ -552,6 +605,12 @@ def run_history(spec, evaluate):
                     k = "abort:" + (r.error_msg or r.status)[:70]
                     probes[k] = probes.get(k, 0) + 1
         V = monitors.Verdicts(prop, {})
+        for r in results:
+            if r.status == "ok":
+                diff = getattr(r, "inputs_changed_before_use", None)
+                V.check("prepared_inputs_unchanged", diff is None, {"key": str(diff).split("/")[1] if diff else None},
+                        {"first_difference": diff, "iso3": r.job["iso3"], "interleaved": bool(spec.get("interleave"))},
+                        "the constants a scenario was configured with changed before its supply series were computed from them")
         nontrivial, evaluations = evaluate(results, spec, V, probes)
         for v in V.violations:
             log.add("MONITOR", clause=v.clause, identity=v.identity)
